@@ -117,6 +117,7 @@ class Item:
         w = world_mod.World(s, self.wseed, self.faults, sched)
         w.shared_exc = shared if shared is not None else world_mod.make_shared_exception()
         self.last_world = w
+        w.deny_request = getattr(self, "deny", False)
         w.mutate_args = getattr(self, "mutate_args", False)
         root = w.root_object(self.root_t) if (self.use_root and self.root_t) else None
         return engine.execute(self.text, operation_name=self.op_name, context={"world": w, "tag": self.wseed},
@@ -157,7 +158,7 @@ def gen_batch(rng, s):
     base = X.gen_request(rng, s, docgen.DocOpts(max_fields=rng.choice([3, 5, 8, 12]), max_depth=rng.choice([3, 4]),
                                                 n_ops=rng.choice([(1, 1), (2, 3)]), op_kinds=("query", "mutation"),
                                                 p_spread=rng.choice([0.18, 0.4]), p_skipinclude=rng.choice([0.15, 0.4]),
-                                                p_var=rng.choice([0.4, 0.8])))
+                                                p_var=rng.choice([0.4, 0.8]), introspection=0.2))
     for i in range(n):
         r = rng.random()
         if i == 0:
@@ -170,7 +171,8 @@ def gen_batch(rng, s):
                 req = X.Request(base.doc, base.text, base.op, {k: (not v if isinstance(v, bool) else v) for k, v in (base.variables or {}).items()},
                                 base.wseed if rng.random() < 0.5 else req.wseed, use_root=base.use_root, pass_opname=base.pass_opname)
         elif r < 0.8:
-            req = X.gen_request(rng, s, docgen.DocOpts(max_fields=rng.choice([3, 5]), max_depth=3, op_kinds=("query", "mutation")))
+            req = X.gen_request(rng, s, docgen.DocOpts(max_fields=rng.choice([3, 5]), max_depth=3, op_kinds=("query", "mutation"),
+                                                       introspection=0.2))
             if len(req.doc.ops) == 1 and base.op.name and rng.random() < 0.5 and req.op.kind == base.op.kind:
                 # another document whose operation has the SAME NAME but its own variable definitions
                 req.op.name = base.op.name
@@ -224,6 +226,13 @@ def gen_batch(rng, s):
         for it in items:
             if it.kind == "exec" and "$" not in (it.text if isinstance(it.text, str) else ""):
                 it.mutate_args = True
+    if "vtpass" in s.directives:
+        # requests of any kind (valid, invalid, broken) that the pass-through schema directive rejects: whatever the engine
+        # does with the exception must stay inside that request
+        for it in items:
+            if rng.random() < 0.15:
+                it.deny, it.req = True, None
+                it.kind += "+denied"
     execs = [it for it in items if it.kind == "exec" and getattr(it, "insts", None)]
     if len(execs) >= 2 and rng.random() < 0.12:
         # the SAME library-error instance raised inside two different requests (known finding)
@@ -234,7 +243,8 @@ def gen_batch(rng, s):
 
 async def run_case(ctx, rng, index):
     st = ctx.stats
-    so = smodel.GenOpts(n_objects=(2, 4), fields=(2, 4), p_gate=0.15, p_mutation=0.3, n_inputs=(1, 2), p_args=0.5)
+    so = smodel.GenOpts(n_objects=(2, 4), fields=(2, 4), p_gate=0.15, p_mutation=0.3, n_inputs=(1, 2), p_args=0.5,
+                        p_non_introspectable=0.15, p_schema_pass=0.3)
     s = smodel.gen_schema(rng, so)
     if rng.random() < 0.35:
         # context-dependent input coercion on String-typed input fields and arguments (defaults included)
@@ -271,13 +281,37 @@ async def run_case(ctx, rng, index):
         for _ in range(BATCHES_PER_SCHEMA):
             items = gen_batch(rng, s)
             case = {"sdl": sdl, "batch": [it.describe() for it in items]}
-            solo = []
+            solo, solo_raw = [], []
             try:
                 for it in items:
-                    solo.append(norm(await it.coro(b.engine, s, None, None)))
+                    solo_raw.append(await it.coro(b.engine, s, None, None))
+                    solo.append(norm(solo_raw[-1]))
             except Exception as e:  # noqa
                 ctx.violation("execute-raised", repr(e), case)
                 continue
+            # the solo answers are the yardstick for everything below: anchor them to the reference executor, so that state
+            # which outlives requests PROCESS-wide (and therefore bends solo, concurrent and fresh answers alike) shows
+            for it, raw in zip(items, solo_raw):
+                req = getattr(it, "req", None)
+                if req is None or getattr(it, "mutate_args", False) or coercer_opts or not isinstance(raw, dict) \
+                        or "vtctx" in s.directives \
+                        or any(f[0] == "raise_shared" for f in it.faults.values()):
+                    continue
+                try:
+                    w_ref = world_mod.World(s, it.wseed, it.faults)
+                    ref = X.run_reference(s, req, w_ref)
+                except refexec.RefBug:
+                    continue
+                if ref.request_error:
+                    continue
+                st.inc("solo_answers_anchored_to_reference")
+                d = X.first_diff(raw.get("data"), ref.data)
+                if d:
+                    ctx.violation("solo-differs-from-reference", "at %s engine=%s reference=%s" % (list(d[0]), X.jdump(d[1])[:150], X.jdump(d[2])[:150]),
+                                  dict(case, request=it.describe()))
+                    continue
+                for kind, detail in X.check_errors(ctx, req, raw, ref, case):
+                    ctx.violation("solo-" + kind, detail, dict(case, request=it.describe()))
             fp_cache, fp_schema = cache.fingerprint(), schema_fingerprint(boot.schema_of(b.engine, b.name))
 
             async def run_once(choose):
